@@ -201,10 +201,10 @@ class CContext:
             # We are now at the position of this field
             bit_offsets[field] = bit_offset
 
-            if field.name is None:
+            if field.name is None and field.typ.is_struct_or_union:
                 # If the field is anonymous,
                 # fill the offsets of named subfields:
-                assert field.typ.is_struct_or_union
+                # (an unnamed bit-field only takes up space)
                 _, sub_field_bit_offsets = self.layout_struct(field.typ)
                 for (
                     sub_field,
